@@ -1673,6 +1673,8 @@ func Run(r *lib.Report) {
 	lib.ParallelFor(len(d.jobs)-d.l1, func(i int) { work(d.l1 + i) })
 
 	r.AddEval(int64(len(d.jobs)))
+	// the TrafficRouting custom resource mode (canary Service = stable Service), judged relationally
+	runSameService(r)
 	// outcomes (merged deterministically)
 	merged := map[string]int64{}
 	for i := range sh {
@@ -1747,6 +1749,9 @@ var ReplayViolated bool
 // Replay re-executes ONE recorded case (the `replay` value of a violation file) on the real provider,
 // printing every operation, the rules in the store after it and the verdict.
 func Replay(r *lib.Report, raw json.RawMessage) {
+	if replaySame(r, raw) {
+		return
+	}
 	c := &Case{}
 	if err := json.Unmarshal(raw, c); err != nil {
 		fmt.Fprintln(os.Stderr, "HARNESS-ERROR C13 replay: cannot parse case:", err)
